@@ -147,11 +147,8 @@ func (h *Header) Encode(body []byte) []byte {
 	}
 	binary.BigEndian.PutUint16(data[:2], id)
 	h.Property.BodyDayaLen = uint16(len(body)) // 消息的长度改为回复的body长度
-	if len(body) < 1000 {
-		h.Property.PacketFragmented = 0 // 不分包
-	} else {
-		//  需要把这个内容分多个包 ???目前感觉没必要 暂时不实现 因为下发的包都比较小
-	}
+	// 下发的报文不写消息包封装项(总包数/包序号) 所以分包标识必须为0 否则body>=1000时对端按分包解析会失败
+	h.Property.PacketFragmented = 0 // 不分包
 	binary.BigEndian.PutUint16(data[2:4], h.Property.encode())
 	if h.ProtocolVersion == consts.JT808Protocol2019 {
 		// 2019版本的标识
